@@ -927,7 +927,8 @@ class Tensor:
         relationship with the view-tensor since these are measures of "cause and effects"
         associated with varying elements of data (albeit infinitesmaly).
         """
-        if self._base is None:
+        if self._base is None or self._base._constant:
+            # (a constant base never holds a gradient to take a view of)
             return self._grad
 
         if self._constant:
